@@ -104,8 +104,8 @@ func DeBlobProgramCode(data []byte) (_ Program, _ ExitReason) {
 	}
 	data = data[dataUsed:]
 
-	if jumpTableLength*jumpTableSize >= 1<<32 {
-		pvmLogger.Errorf("jump table size %d bits exceed litmit of 32 bits", jumpTableLength*jumpTableSize)
+	if jumpTableBytes, overflow := checkOverflow(jumpTableLength, jumpTableSize); overflow || jumpTableBytes >= 1<<32 {
+		pvmLogger.Errorf("jump table of %d entries x %d octets exceeds the limit of 32 bits", jumpTableSize, jumpTableLength)
 		return Program{}, ExitPanic
 		// panic("the jump table's size is supposed to be at most 32 bits")
 	}
